@@ -285,11 +285,18 @@ PREEMPT_STATEMENTS = {
 
 
 def preempt_ledger():
-    entries = small_ledger(0)
-    long_one = ledger.txn(datetime.date(2019, 2, 3), [ledger.posting('Expenses:Food', D('30.00'), 'USD'),
-                                                     ledger.posting('Assets:Bank', D('-30.00'), 'USD')],
-                          narration='a monthly payment with a narration that is long enough to be cut at both widths', lineno=23)
-    return entries + [long_one]
+    # every narration is longer than the widths used by the maxwidth statements: a preemption at the first occurrence of a line
+    # (the first row) already shows a difference
+    long = ' - a narration that is long enough to be cut at both of the widths used below'
+    opens = ledger.opens()
+    t1 = ledger.txn(datetime.date(2019, 1, 2), [ledger.posting('Assets:Bank', D('1000.00'), 'USD'),
+                                                ledger.posting('Income:Salary', D('-1000.00'), 'USD')], narration='salary' + long, lineno=20)
+    t2 = ledger.txn(datetime.date(2019, 1, 10), [ledger.posting('Expenses:Food', D('12.50'), 'USD'),
+                                                 ledger.posting('Assets:Bank', D('-12.50'), 'USD')],
+                    narration='lunch' + long, flag='!', lineno=21)
+    t3 = ledger.txn(datetime.date(2019, 2, 1), [ledger.posting('Expenses:Food', D('8.00'), 'USD'),
+                                                ledger.posting('Liabilities:Card', D('-8.00'), 'USD')], narration='dinner' + long, lineno=22)
+    return opens + [t1, t2, t3]
 
 
 def _outcome(conn, stmt):
